@@ -163,6 +163,22 @@ pub fn check_vector(v: &Value) -> Result<Vec<Finding>, String> {
         if outcome != "refused" && *b != spec_bytes {
             out.push(Finding { stage: "layout-encode", field: first_byte_diff(&spec_bytes, b), detail: format!("specification {:?} code {:?}", spec_bytes, b) });
         }
+        // C02 "byte 2 of every frame is the request id": the request id setter changes that byte and nothing else
+        if outcome == "ok" && in_domain && b.len() >= 4 {
+            use insim::WithRequestId;
+            let rq = b[2].wrapping_add(101);
+            let p2: insim::Packet = p.clone().with_request_id(rq).into();
+            match try_encode(mode, &p2) {
+                Ok(b2) => {
+                    let mut want = b.clone();
+                    want[2] = rq;
+                    if b2 != want {
+                        out.push(Finding { stage: "layout-encode", field: format!("with_request_id:{}", first_byte_diff(&want, &b2)), detail: format!("with_request_id({rq}) gives {:?}, expected {:?}", b2, want) });
+                    }
+                },
+                Err(e) => out.push(Finding { stage: "layout-encode", field: "with_request_id".into(), detail: format!("with_request_id({rq}) then encode: {e}") }),
+            }
+        }
     }
     if outcome == "ok" && in_domain {
         // C02 bytes -> typed: decode the specification's frame
